@@ -35,7 +35,9 @@ assert rc == 0, o
 report = {"property": pid, "base_commit": sh(["git", "-C", "/repo", "rev-parse", "--short", "HEAD"])[1].strip()}
 try:
     env = {"PYTHONPATH": f"{scratch}/src"}
-    rc0, o0 = sh([PY, str(out / "demo.py")], cwd=str(out), env=env, timeout=900)
+    # C17/C29: pyOpenSSL / priority are absent from /venv; the demo (only) runs with the same stand-ins the check uses
+    denv = {"PYTHONPATH": f"{scratch}/src:/verif/harness/shims"} if pid in ("C17", "C29") else env
+    rc0, o0 = sh([PY, str(out / "demo.py")], cwd=str(out), env=denv, timeout=900)
     report["demo_without_patch_exit"] = rc0
     tests = meta.get("existing_tests_run", [])
     files = sorted({w for t in tests for w in t.split() if w.endswith(".py") and "test" in w})
@@ -53,7 +55,7 @@ try:
     report["patch_applies"] = rc == 0
     if rc != 0:
         report["apply_error"] = o[-500:]
-    rc1, o1 = sh([PY, str(out / "demo.py")], cwd=str(out), env=env, timeout=900)
+    rc1, o1 = sh([PY, str(out / "demo.py")], cwd=str(out), env=denv, timeout=900)
     report["demo_with_patch_exit"] = rc1
     report["demo_with_patch_tail"] = o1[-600:]
     fail_after = failing("with_patch")
